@@ -2,7 +2,7 @@ SPECIFICATION Spec
 CONSTANTS
   LongLen = 5
   Layouts <- MCLayouts
-  BaseLens = {0, 1, 4, 5, 6, 9}
+  BaseLens = {0, 1, 5, 6}
   Wipes = {}
   Variants = {"asis", "fixed"}
   Cuts = FALSE
@@ -18,7 +18,7 @@ CONSTANTS
   LockBits = {9, 12}
   CtlTypes = {1, 2}
   TwoCtl = FALSE
-  OldLens = {0, 1, 5, 9}
+  OldLens = {1, 5}
 INVARIANT RoundTrip
 INVARIANT CapSound
 INVARIANT RejectEarly
